@@ -24,7 +24,7 @@ for m in muts:
         res = []
         for cid in m['checks']:
             env = dict(os.environ, VERIF_REPO=r)
-            o = subprocess.run([os.path.join(root, 'check'), cid], env=env, capture_output=True, text=True)
+            o = subprocess.run([os.path.join(root, 'check'), cid] + (['--only-config', os.environ['TRYMUT_ONLY_CONFIG']] if os.environ.get('TRYMUT_ONLY_CONFIG') else []), env=env, capture_output=True, text=True)
             keys = re.findall(r'key=(\S+?):', o.stderr)
             res.append('%s:%s%s' % (cid, {0: 'MISSED', 1: 'CAUGHT', 2: 'INCONCLUSIVE'}.get(o.returncode, o.returncode),
                                     (' [' + ', '.join(keys[:3]) + ']') if keys else ''))
